@@ -447,13 +447,28 @@ std::vector<Node::ControlEndpoint> Node::preferred_control_endpoints() const {
         }
     }
 
-    for (const auto& candidate : config_.auto_advertise_candidates) {
-        const auto port = candidate.port != 0 ? candidate.port : fallback_port;
-        append(candidate.host, port, false);
+    // Auto-discovered candidates are published only when refresh_advertised_endpoints() would promote
+    // them: never with auto-advertise off, and not in warn mode while the candidates conflict.
+    const bool publish_auto = config_.advertise_auto_mode == Config::AdvertiseAutoMode::On
+        || (config_.advertise_auto_mode == Config::AdvertiseAutoMode::Warn && !config_.auto_advertise_conflict);
+
+    if (publish_auto) {
+        for (const auto& candidate : config_.auto_advertise_candidates) {
+            const auto port = candidate.port != 0 ? candidate.port : fallback_port;
+            append(candidate.host, port, false);
+        }
     }
 
     if (transport_port != 0) {
-        append_self_endpoint();
+        // The self endpoint is auto-discovered when it comes from NAT traversal; it then obeys the same
+        // mode and routability rules as the candidates.  Without a NAT result it is the operator's control host.
+        const bool nat_derived = nat_status_.has_value() && !nat_status_->external_address.empty()
+            && nat_status_->external_address != "0.0.0.0" && nat_status_->external_port != 0;
+        if (!nat_derived
+            || (publish_auto && (config_.advertise_allow_private
+                                 || network::is_publicly_routable_host(nat_status_->external_address)))) {
+            append_self_endpoint();
+        }
     }
 
     return endpoints;
